@@ -213,7 +213,6 @@ def St.kindAt (s : St) (k : Key) : Option Kind :=
   ((s.regs k.1).decls.find? (fun d => d.name == k.2)).map (·.kind)
 
 structure Stat (s : St) : Prop where
-  progs : ∀ h, s.progs h = []
   regs : ∀ o, RegOK (s.regs o)
   pure : ∀ c x, s.comps c = some x → Pure x.tree
   ranked : ∀ c x, s.comps c = some x → Ranked c x.tree
@@ -292,7 +291,7 @@ theorem Stat.obsKeys {s : St} (w : Stat s) (c : Nat) (x : Comp) (hx : s.comps c 
   rw [w.slotKind c' x' hx'] at hk; cases hk
 
 theorem Stat.of_staticEq {s s' : St} (w : Stat s) (a : StaticEq s s') : Stat s' := by
-  refine ⟨fun h => by rw [a.progs]; exact w.progs h, fun o => RegOK.of_decls (a.decls o) (w.regs o), ?_, ?_, ?_, ?_, ?_⟩
+  refine ⟨fun o => RegOK.of_decls (a.decls o) (w.regs o), ?_, ?_, ?_, ?_, ?_⟩
   · intro c x' h'
     obtain ⟨x, h, _, _, ht⟩ := a.defined' h'
     rw [ht]; exact w.pure c x h
@@ -366,6 +365,10 @@ def Current (P : Nat → Prop) (s : St) : PRef → V → Prop
 def Subd (s : St) (c : Nat) (p : PRef) : Prop :=
   ∃ k, s.keyOf p = some k ∧ k.2 ∈ (s.regs k.1).names ∧ Sub.dirty c ∈ (s.regs k.1).subs k.2 .change
 
+/-- user handlers that read Computables while notified (`progs h ≠ []`) are subscribed to plain Observables only -/
+def Inv.UserOK (s : St) : Prop :=
+  ∀ o n t h, Sub.user h ∈ (s.regs o).subs n t → s.progs h = [] ∨ s.kindAt (o, n) = some .obs
+
 /-- `S` = the Computeds that are being evaluated right now (on the Python call stack) -/
 structure Inv (S P : Nat → Prop) (s : St) : Prop where
   stackDirty : ∀ c, S c → ∃ x, s.comps c = some x ∧ x.dirty = true
@@ -378,6 +381,7 @@ structure Inv (S P : Nat → Prop) (s : St) : Prop where
   subsOf : ∀ o n t c, Sub.dirty c ∈ (s.regs o).subs n t →
     t = .change ∧ ∃ x, s.comps c = some x ∧ ∃ p v, (p, v) ∈ x.parents ∧ s.keyOf p = some (o, n)
   current : ∀ c x, s.comps c = some x → x.dirty = false → ∀ p v, (p, v) ∈ x.parents → Current P s p v
+  userOK : Inv.UserOK s
 
 def NoP : Nat → Prop := fun _ => False
 
@@ -425,7 +429,7 @@ theorem Inv.update_comp {S P : Nat → Prop} {s : St} (inv : Inv S P s) {c : Nat
       rw [hx] at hy; cases hy
       exact ⟨x', setComp_same s c' x', hval w hw hd⟩
     · exact ⟨y, by rw [setComp_ne s x' h']; exact hy, hw, hd⟩
-  refine ⟨?_, inv.curStack, ?_, ?_, ?_, ?_⟩
+  refine ⟨?_, inv.curStack, ?_, ?_, ?_, ?_, inv.userOK⟩
   · intro q hq
     by_cases h : q = c
     · subst h; exact ⟨x', setComp_same s q x', hS hq⟩
@@ -463,10 +467,10 @@ theorem Inv.update_comp {S P : Nat → Prop} {s : St} (inv : Inv S P s) {c : Nat
 
 /-- fields the invariant does not look at (`cur` only has to point into the stack) -/
 theorem Inv.congr {S P : Nat → Prop} {s s' : St} (inv : Inv S P s) (hc : s'.comps = s.comps) (hr : s'.regs = s.regs)
-    (hs : s'.store = s.store) (hcur : ∀ p, s'.cur = some p → S p) : Inv S P s' := by
+    (hs : s'.store = s.store) (hp : s'.progs = s.progs) (hcur : ∀ p, s'.cur = some p → S p) : Inv S P s' := by
   have hk : s'.keyOf = s.keyOf := by funext p; cases p <;> simp [St.keyOf, hc]
   have hsl : ∀ k, s'.isSlot k ↔ s.isSlot k := fun k => by simp [St.isSlot, hc]
-  refine ⟨?_, hcur, ?_, ?_, ?_, ?_⟩
+  refine ⟨?_, hcur, ?_, ?_, ?_, ?_, ?_⟩
   · simpa [hc] using inv.stackDirty
   · simpa [hc] using inv.evald
   · intro c x hx p v hp
@@ -483,6 +487,10 @@ theorem Inv.congr {S P : Nat → Prop} {s s' : St} (inv : Inv S P s) (hc : s'.co
     cases p with
     | obs k => simpa [Current, hs] using this
     | comp c' => simpa [Current, hc] using this
+  · intro o n t h hm
+    rw [hr] at hm
+    have := inv.userOK o n t h hm
+    simpa [hp, St.kindAt, hr] using this
 
 /-- `_add_parent` called by the evaluating Computed `p` -/
 theorem addParent_spec {S P : Nat → Prop} {s s' : St} (w : Stat s) (inv : Inv S P s) {p : Nat} {x : Comp}
@@ -526,7 +534,20 @@ theorem addParent_spec {S P : Nat → Prop} {s s' : St} (w : Stat s) (inv : Inv 
           Subd ((s.setReg o reg).setComp p { x with parents := insertParent s.ownerOf r v x.parents }) q p0 := by
         intro q p0 ⟨k, h1, h2, h3⟩
         exact ⟨k, by rw [hkey]; exact h1, by simpa [hnames] using h2, by simpa using hmem _ _ _ _ h3⟩
-      refine ⟨⟨?_, inv.curStack, ?_, ?_, ?_, ?_⟩, se, rfl, rfl, rfl, fun q hq => by simp [setComp_ne _ _ hq], by simp⟩
+      have huser : Inv.UserOK ((s.setReg o reg).setComp p { x with parents := insertParent s.ownerOf r v x.parents }) := by
+        intro o' n' t' h' hm
+        simp only [setComp_regs] at hm
+        have hm0 : Sub.user h' ∈ (s.regs o').subs n' t' := by
+          by_cases h'' : o' = o
+          · subst h''
+            rw [setReg_same, hs] at hm
+            split at hm
+            · simpa using hm
+            · exact hm
+          · rw [setReg_ne s reg h''] at hm; exact hm
+        have := inv.userOK o' n' t' h' hm0
+        rwa [se.kindAt]
+      refine ⟨⟨?_, inv.curStack, ?_, ?_, ?_, ?_, huser⟩, se, rfl, rfl, rfl, fun q hq => by simp [setComp_ne _ _ hq], by simp⟩
       · intro q hq
         by_cases h' : q = p
         · subst h'; exact ⟨_, setComp_same _ _ _, hxd⟩
@@ -595,7 +616,7 @@ theorem addParent_spec {S P : Nat → Prop} {s s' : St} (w : Stat s) (inv : Inv 
 
 theorem Inv.push {S P : Nat → Prop} {s : St} (inv : Inv S P s) {c : Nat} {x : Comp} (hx : s.comps c = some x)
     (hd : x.dirty = true) : Inv (fun q => S q ∨ q = c) P s := by
-  refine ⟨?_, fun p hp => Or.inl (inv.curStack p hp), ?_, inv.parents, inv.subsOf, inv.current⟩
+  refine ⟨?_, fun p hp => Or.inl (inv.curStack p hp), ?_, inv.parents, inv.subsOf, inv.current, inv.userOK⟩
   · rintro q (hq | rfl)
     · exact inv.stackDirty q hq
     · exact ⟨x, hx, hd⟩
@@ -614,8 +635,9 @@ theorem removeFold (c : Nat) (L : List Nat) (s : St) (hreg : ∀ o, RegOK (s.reg
       | .error _ => s) s
     s'.comps = s.comps ∧ s'.store = s.store ∧ s'.cur = s.cur ∧ s'.dead = s.dead ∧ s'.progs = s.progs ∧
     (∀ o, (s'.regs o).decls = (s.regs o).decls) ∧
-    ∀ o n t q, Sub.dirty q ∈ (s'.regs o).subs n t ↔
-      Sub.dirty q ∈ (s.regs o).subs n t ∧ ¬ (o ∈ L ∧ n ∈ (s.regs o).names ∧ t = .change ∧ q = c) := by
+    (∀ o n t q, Sub.dirty q ∈ (s'.regs o).subs n t ↔
+      Sub.dirty q ∈ (s.regs o).subs n t ∧ ¬ (o ∈ L ∧ n ∈ (s.regs o).names ∧ t = .change ∧ q = c)) ∧
+    ∀ o n t h, Sub.user h ∈ (s'.regs o).subs n t → Sub.user h ∈ (s.regs o).subs n t := by
   induction L generalizing s with
   | nil => simp
   | cons o L ih =>
@@ -627,8 +649,18 @@ theorem removeFold (c : Nat) (L : List Nat) (s : St) (hreg : ∀ o, RegOK (s.reg
       by_cases h : o' = o
       · subst h; rw [setReg_same]; exact RegOK.of_decls hdecl (hreg o')
       · rw [setReg_ne s reg h]; exact hreg o'
-    obtain ⟨h1, h2, h3, h4, h5, h6, h7⟩ := ih (s.setReg o reg) hreg'
-    refine ⟨h1, h2, h3, h4, h5, ?_, ?_⟩
+    obtain ⟨h1, h2, h3, h4, h5, h6, h7, h8⟩ := ih (s.setReg o reg) hreg'
+    refine ⟨h1, h2, h3, h4, h5, ?_, ?_, ?_⟩
+    rotate_left 2
+    · intro o' n t h hm
+      have hm' := h8 o' n t h hm
+      by_cases ho : o' = o
+      · subst ho
+        rw [setReg_same, hs] at hm'
+        split at hm'
+        · exact (List.mem_filter.mp hm').1
+        · exact hm'
+      · rw [setReg_ne s reg ho] at hm'; exact hm'
     · intro o'
       rw [h6 o']
       by_cases h : o' = o
@@ -667,8 +699,8 @@ theorem removeParents_spec {S P : Nat → Prop} {s : St} (w : Stat s) (inv : Inv
     (removeParents s c).comps c = some { x with parents := [] } := by
   unfold removeParents
   simp only [hx]
-  obtain ⟨h1, h2, h3, h4, h5, h6, h7⟩ := removeFold c (parentOwners s x.parents) s w.regs
-  generalize (parentOwners s x.parents).foldl _ s = s1 at h1 h2 h3 h4 h5 h6 h7
+  obtain ⟨h1, h2, h3, h4, h5, h6, h7, h8⟩ := removeFold c (parentOwners s x.parents) s w.regs
+  generalize (parentOwners s x.parents).foldl _ s = s1 at h1 h2 h3 h4 h5 h6 h7 h8
   have hx1 : s1.comps c = some x := by rw [h1]; exact hx
   have se1 : StaticEq s s1 := ⟨h5, h6, fun q => by rw [h1]; exact (StaticEq.refl s).comps q⟩
   have se : StaticEq s (s1.setComp c { x with parents := [] }) :=
@@ -698,7 +730,11 @@ theorem removeParents_spec {S P : Nat → Prop} {s : St} (w : Stat s) (inv : Inv
   have hsubd : ∀ q p0, q ≠ c → Subd s q p0 → Subd (s1.setComp c { x with parents := [] }) q p0 := by
     intro q p0 hq ⟨k, g1, g2, g3⟩
     exact ⟨k, by rw [hkey]; exact g1, by simpa [hnames] using g2, by simpa using (hkeep _ _ _ q hq).mpr g3⟩
-  refine ⟨⟨?_, ?_, ?_, ?_, ?_, ?_⟩, se, h2, h3, h4, fun q hq => by rw [setComp_ne _ _ hq, h1], by simp⟩
+  have huser : Inv.UserOK (s1.setComp c { x with parents := [] }) := by
+    intro o' n' t' h' hm
+    have := inv.userOK o' n' t' h' (h8 o' n' t' h' hm)
+    rwa [se.kindAt, show (s1.setComp c { x with parents := [] }).progs = s.progs from h5]
+  refine ⟨⟨?_, ?_, ?_, ?_, ?_, ?_, huser⟩, se, h2, h3, h4, fun q hq => by rw [setComp_ne _ _ hq, h1], by simp⟩
   · intro q hq
     by_cases h : q = c
     · subst h; exact ⟨_, setComp_same _ _ _, hxd⟩
@@ -736,10 +772,11 @@ theorem removeParents_spec {S P : Nat → Prop} {s : St} (w : Stat s) (inv : Inv
 /-- the invariant only looks at the `_set_dirty` entries of the registry -/
 theorem Inv.congr_regs {S P : Nat → Prop} {s s' : St} (inv : Inv S P s) (hc : s'.comps = s.comps)
     (hs : s'.store = s.store) (hcur : s'.cur = s.cur) (hn : ∀ o, (s'.regs o).names = (s.regs o).names)
-    (hm : ∀ o n t q, Sub.dirty q ∈ (s'.regs o).subs n t ↔ Sub.dirty q ∈ (s.regs o).subs n t) : Inv S P s' := by
+    (hm : ∀ o n t q, Sub.dirty q ∈ (s'.regs o).subs n t ↔ Sub.dirty q ∈ (s.regs o).subs n t)
+    (hu : Inv.UserOK s') : Inv S P s' := by
   have hk : s'.keyOf = s.keyOf := by funext p; cases p <;> simp [St.keyOf, hc]
   have hsl : ∀ k, s'.isSlot k ↔ s.isSlot k := fun k => by simp [St.isSlot, hc]
-  refine ⟨?_, fun p hp => inv.curStack p (by rw [← hcur]; exact hp), ?_, ?_, ?_, ?_⟩
+  refine ⟨?_, fun p hp => inv.curStack p (by rw [← hcur]; exact hp), ?_, ?_, ?_, ?_, hu⟩
   · simpa [hc] using inv.stackDirty
   · simpa [hc] using inv.evald
   · intro c x hx p v hp
@@ -756,10 +793,46 @@ theorem Inv.congr_regs {S P : Nat → Prop} {s s' : St} (inv : Inv S P s) (hc : 
     | obs k => simpa [Current, hs] using this
     | comp c' => simpa [Current, hc] using this
 
-/-- a notification none of whose `_set_dirty` subscribers is clean: only user handlers are called (they
-    record) -/
+theorem mem_filter_isDep_dirty (c : Nat) (l : List Sub) : Sub.dirty c ∈ l.filter Sub.isDep ↔ Sub.dirty c ∈ l := by
+  simp [List.mem_filter, Sub.isDep]
+
+theorem mem_filter_isDep_user (h : Nat) (l : List Sub) : Sub.user h ∉ l.filter Sub.isDep := by
+  simp [List.mem_filter, Sub.isDep]
+
+theorem mem_filter_notDep_user (h : Nat) (l : List Sub) :
+    Sub.user h ∈ l.filter (fun x => !x.isDep) ↔ Sub.user h ∈ l := by
+  simp [List.mem_filter, Sub.isDep]
+
+theorem mem_filter_notDep_dirty (c : Nat) (l : List Sub) : Sub.dirty c ∉ l.filter (fun x => !x.isDep) := by
+  simp [List.mem_filter, Sub.isDep]
+
+/-- pruning the dead references of one list keeps `UserOK` -/
+theorem Inv.UserOK.prune {s : St} (hu : Inv.UserOK s) (k : Key) :
+    Inv.UserOK (s.setReg k.1 ((s.regs k.1).setSubs k.2 .change (((s.regs k.1).subs k.2 .change).filter s.alive))) := by
+  intro o n t h hm
+  have hm0 : Sub.user h ∈ (s.regs o).subs n t := by
+    by_cases ho : o = k.1
+    · subst ho
+      simp only [setReg_same, Reg.setSubs] at hm
+      split at hm
+      · rename_i hc
+        obtain ⟨rfl, rfl⟩ := hc
+        exact (List.mem_filter.mp hm).1
+      · exact hm
+    · rw [setReg_ne _ _ ho] at hm; exact hm
+  have := hu o n t h hm0
+  have hk : (s.setReg k.1 ((s.regs k.1).setSubs k.2 .change (((s.regs k.1).subs k.2 .change).filter s.alive))).kindAt (o, n) =
+      s.kindAt (o, n) := by
+    unfold St.kindAt
+    by_cases ho : o = k.1
+    · subst ho; simp [Reg.setSubs]
+    · simp [St.setReg, ho]
+  rw [hk]; exact this
+
+/-- a notification none of whose `_set_dirty` subscribers is clean and all of whose user handlers are passive: the user
+    handlers are called (they record), nothing else happens -/
 theorem notifyLoop_quiet (rec : Rec) (k : Key) (old new : V) (xs : List Sub) :
-    ∀ (s : St), (∀ h, s.progs h = []) →
+    ∀ (s : St), (∀ h, Sub.user h ∈ xs → s.progs h = []) →
     (∀ c, Sub.dirty c ∈ xs → ∃ x, s.comps c = some x ∧ x.dirty = true) →
     ∃ lg, notifyLoop rec k old new xs s = some ({ s with log := s.log ++ lg }, .ok ()) := by
   induction xs with
@@ -769,31 +842,44 @@ theorem notifyLoop_quiet (rec : Rec) (k : Key) (old new : V) (xs : List Sub) :
     unfold notifyLoop
     by_cases hg : (!s.alive x || !(((s.regs k.1).subs k.2 .change).contains x)) = true
     · rw [if_pos hg]
-      exact ih s hp (fun c' hc' => hq c' (by simp [hc']))
+      exact ih s (fun h hh => hp h (by simp [hh])) (fun c' hc' => hq c' (by simp [hc']))
     · rw [if_neg hg]
       cases x with
       | dirty c =>
         obtain ⟨y, hy, hd⟩ := hq c (by simp)
         simp only [hy, hd, if_true]
-        exact ih s hp (fun c' hc' => hq c' (by simp [hc']))
+        exact ih s (fun h hh => hp h (by simp [hh])) (fun c' hc' => hq c' (by simp [hc']))
       | user h =>
-        simp only [hp h, readAll]
-        obtain ⟨lg, hh⟩ := ih { s with log := s.log ++ [⟨h, k.1, k.2, old, new⟩] } hp
-          (fun c' hc' => hq c' (by simp [hc']))
+        simp only [hp h (by simp), readAll]
+        obtain ⟨lg, hh⟩ := ih { s with log := s.log ++ [⟨h, k.1, k.2, old, new⟩] }
+          (fun h' hh' => hp h' (by simp [hh'])) (fun c' hc' => hq c' (by simp [hc']))
         refine ⟨⟨h, k.1, k.2, old, new⟩ :: lg, ?_⟩
         rw [hh]
         simp
 
+/-- … for the `change` signal of a Computable (a slot): its user handlers are passive (`Inv.userOK`) -/
 theorem notifyT_quiet {S P : Nat → Prop} (rec : Rec) (k : Key) (old new : V) {s : St} (w : Stat s)
-    (inv : Inv S P s)
+    (inv : Inv S P s) (hk : s.kindAt k = some .comp)
     (hq : ∀ c, Sub.dirty c ∈ (s.regs k.1).subs k.2 .change → ∃ x, s.comps c = some x ∧ x.dirty = true) :
     ∃ s', notifyT rec k old new s = some (s', .ok none) ∧ Inv S P s' ∧ StaticEq s s' ∧ s'.comps = s.comps ∧
       s'.store = s.store ∧ s'.cur = s.cur ∧ s'.dead = s.dead := by
-  obtain ⟨lg, h⟩ := notifyLoop_quiet rec k old new ((s.regs k.1).subs k.2 .change) s w.progs hq
+  have hpass : ∀ h, Sub.user h ∈ (s.regs k.1).subs k.2 .change → s.progs h = [] := by
+    intro h hm
+    rcases inv.userOK k.1 k.2 .change h hm with hp | hp
+    · exact hp
+    · rw [hk] at hp; cases hp
+  obtain ⟨lg1, h1⟩ := notifyLoop_quiet rec k old new (((s.regs k.1).subs k.2 .change).filter Sub.isDep) s
+    (fun h hh => absurd hh (mem_filter_isDep_user h _))
+    (fun c hc => hq c ((mem_filter_isDep_dirty c _).mp hc))
+  obtain ⟨lg2, h2⟩ := notifyLoop_quiet rec k old new (((s.regs k.1).subs k.2 .change).filter fun x => !x.isDep)
+    { s with log := s.log ++ lg1 }
+    (fun h hh => hpass h ((mem_filter_notDep_user h _).mp hh))
+    (fun c hc => absurd hc (mem_filter_notDep_dirty c _))
   unfold notifyT
-  rw [h]
+  simp only [h1, h2]
   refine ⟨_, rfl, ?_, ?_, rfl, rfl, rfl, rfl⟩
-  · refine inv.congr_regs rfl rfl rfl ?_ ?_
+  · have invl : Inv S P { s with log := s.log ++ lg1 ++ lg2 } := inv.congr rfl rfl rfl rfl inv.curStack
+    refine invl.congr_regs rfl rfl rfl ?_ ?_ (invl.userOK.prune k)
     · intro o
       by_cases ho : o = k.1
       · subst ho; simp [Reg.names]
@@ -1119,7 +1205,7 @@ theorem evalTree_spec {rec : Rec} (ih : IH rec) (c : Nat) (S : Nat → Prop) (hS
         rw [hx] at hy; cases hy; exact hd
       -- the state the rest of the function starts from
       have inv1' : Inv (fun q => S q ∨ q = c) NoP { s1 with proc := k :: s1.proc } :=
-        inv1.congr rfl rfl rfl inv1.curStack
+        inv1.congr rfl rfl rfl rfl inv1.curStack
       have se1' : StaticEq s { s1 with proc := k :: s1.proc } := ⟨se1.progs, se1.decls, se1.comps⟩
       have hcons : ∀ e ∈ x.parents, e.1 = .obs k → e.2 = s.store k := by
         intro e he hek
@@ -1362,7 +1448,7 @@ theorem Inv.finish {S : Nat → Prop} {s : St} {c : Nat} {x : Comp} {v : V} {ps 
       obtain ⟨y, hy, hv, hd⟩ := h
       have : c' ≠ c := fun e => hne (by rw [e])
       exact ⟨y, by show (s.setComp c _).comps c' = some y; rw [setComp_ne _ _ this]; exact hy, hv, hd⟩
-  refine ⟨?_, hsaved, ?_, ?_, ?_, ?_⟩
+  refine ⟨?_, hsaved, ?_, ?_, ?_, ?_, inv.userOK⟩
   · intro q hq
     have : q ≠ c := fun e => hSc (e ▸ hq)
     show ∃ y, (s.setComp c _).comps q = some y ∧ _
@@ -1452,7 +1538,7 @@ theorem Inv.fail {S : Nat → Prop} {s : St} {c : Nat} {x : Comp} {ps : List (PR
     intro y hy
     have : (s.setComp c { x with first := true }).comps c = some y := hy
     rw [setComp_same] at this; cases this; rfl
-  refine ⟨?_, hsaved, ?_, ?_, ?_, ?_⟩
+  refine ⟨?_, hsaved, ?_, ?_, ?_, ?_, inv.userOK⟩
   · intro q hq
     have : q ≠ c := fun e => hSc (e ▸ hq)
     show ∃ y, (s.setComp c _).comps q = some y ∧ _
@@ -1528,7 +1614,7 @@ theorem evalBody_spec {rec : Rec} (ih : IH rec) (c : Nat) (S : Nat → Prop) (hS
   generalize hs3 : ({ ((removeParents s1 c).setComp c { x with parents := [], evals := x.evals + 1 }) with
       cur := some c, depth := (removeParents s1 c).depth + 1 } : St) = s3 at h
   have inv3 : Inv (fun q => S q ∨ q = c) NoP s3 := by
-    subst hs3; exact inv3a.congr rfl rfl rfl (fun p hp => by cases hp; exact hSc')
+    subst hs3; exact inv3a.congr rfl rfl rfl rfl (fun p hp => by cases hp; exact hSc')
   have se3 : StaticEq s1 s3 := by
     subst hs3; exact se2.trans ⟨se3a.progs, se3a.decls, se3a.comps⟩
   have hx3 : s3.comps c = some { x with parents := [], evals := x.evals + 1 } := by subst hs3; simp
@@ -1589,7 +1675,7 @@ theorem evalBody_spec {rec : Rec} (ih : IH rec) (c : Nat) (S : Nat → Prop) (hS
         fun q y hy hd => hkeep q y hy hd _, fun q hq => habove q hq _, hbelow _ sef, fun v hv => (by cases hv),
         fun e' he' => ?_⟩
       · exact (Inv.fail (saved := saved) inv4 hSc hc4 (by rw [hx4t]; exact hpre) (fun e => by simpa using hmem4 e)
-          hsaved).congr rfl rfl rfl (fun p hp => hsaved p hp)
+          hsaved).congr rfl rfl rfl rfl (fun p hp => hsaved p hp)
       · refine ⟨_, setComp_same _ _ _, rfl, hx4d, ?_, hx4e⟩
         have hdf4 : DenFail s4 x4.tree := by rw [hx4t]; exact hdf
         exact DenFail.congr (s := s4) (s' := leave saved (s4.setComp c { x4 with first := true })) rfl sef hdf4
@@ -1605,7 +1691,7 @@ theorem evalBody_spec {rec : Rec} (ih : IH rec) (c : Nat) (S : Nat → Prop) (hS
         fun q y hy hd => hkeep q y hy hd _, fun q hq => habove q hq _, hbelow _ sek, fun v' hv' => ?_,
         fun e he => by cases he⟩
       · exact (Inv.finish (saved := saved) inv4 hSc hc4 hx4f (by rw [hx4t]; exact hp) (fun e => by simpa using hmem4 e)
-          (fun e he => hcurr4 e (by simpa using (hmem4 e).mpr he)) hsaved).congr rfl rfl rfl
+          (fun e he => hcurr4 e (by simpa using (hmem4 e).mpr he)) hsaved).congr rfl rfl rfl rfl
           (fun p hp => hsaved p hp)
       · have : StaticEq s4 (leave saved (s4.setComp c { x4 with value := some v, dirty := false })) := by
           have := StaticEq.of_setComp (s := s4) (x' := { x4 with value := some v, dirty := false }) hc4 rfl rfl rfl
@@ -1688,7 +1774,7 @@ theorem callC_spec {rec : Rec} (ih : IH rec) (c : Nat) (S : Nat → Prop) (hSc :
           (fun v hv hdd => ⟨hv, hdd⟩)
       have se0 : StaticEq s (s.setComp c x) := StaticEq.of_setComp hx rfl rfl rfl
       have inv0' : Inv S NoP { (s.setComp c x) with cur := none } :=
-        inv0.congr rfl rfl rfl (fun p hp => by cases hp)
+        inv0.congr rfl rfl rfl rfl (fun p hp => by cases hp)
       have se0' : StaticEq s { (s.setComp c x) with cur := none } := ⟨se0.progs, se0.decls, se0.comps⟩
       have hpre := fun (s1 : St) (r1 : Except Err Bool)
           (hp : precheck rec x.parents { (s.setComp c x) with cur := none } = some (s1, r1)) =>
@@ -1706,7 +1792,7 @@ theorem callC_spec {rec : Rec} (ih : IH rec) (c : Nat) (S : Nat → Prop) (hSc :
         injection hb with hb; subst hb
         have hc1 : s1.comps c = some x := by
           rw [i7 c (Nat.le_refl c)]; exact setComp_same _ _ _
-        have inv1 : Inv S NoP { s1 with cur := s.cur } := i1.congr rfl rfl rfl hsaved
+        have inv1 : Inv S NoP { s1 with cur := s.cur } := i1.congr rfl rfl rfl rfl hsaved
         have se1 : StaticEq s { s1 with cur := s.cur } := by
           have := se0'.trans i2
           exact ⟨this.progs, this.decls, this.comps⟩
@@ -1750,7 +1836,7 @@ theorem callC_spec {rec : Rec} (ih : IH rec) (c : Nat) (S : Nat → Prop) (hSc :
         injection hb with hb; subst hb
         have hc1 : s1.comps c = some x := by
           rw [i7 c (Nat.le_refl c)]; exact setComp_same _ _ _
-        have inv1 : Inv S NoP { s1 with cur := s.cur } := i1.congr rfl rfl rfl hsaved
+        have inv1 : Inv S NoP { s1 with cur := s.cur } := i1.congr rfl rfl rfl rfl hsaved
         have se1 : StaticEq s { s1 with cur := s.cur } := by
           have := se0'.trans i2
           exact ⟨this.progs, this.decls, this.comps⟩
@@ -1789,7 +1875,7 @@ theorem callC_spec {rec : Rec} (ih : IH rec) (c : Nat) (S : Nat → Prop) (hSc :
           · intro x0 hx0
             rw [hx] at hx0; cases hx0
             exact ⟨_, setComp_same _ _ _, Or.inl ⟨rfl, fun h' => by simp at h'⟩⟩
-        refine ⟨invf.congr rfl rfl rfl hsaved, ?_, i3, rfl, i5, ?_, ?_, hbelow, fun v hv => ?_, fun e he => (by cases he)⟩
+        refine ⟨invf.congr rfl rfl rfl rfl hsaved, ?_, i3, rfl, i5, ?_, ?_, hbelow, fun v hv => ?_, fun e he => (by cases he)⟩
         · have := (se0'.trans i2).trans (StaticEq.of_setComp (x' := { x with dirty := false }) hc1 rfl rfl rfl)
           exact ⟨this.progs, this.decls, this.comps⟩
         · intro q y hy hdq
@@ -1947,8 +2033,12 @@ theorem getC_spec {rec : Rec} (ih : IH rec) (c : Nat) (S : Nat → Prop) (hSc : 
                     · exact hzd
             rcases ih.notify (x.owner, x.name) x.value.join new s2 with hnone | ⟨rec', hrec'⟩
             · simp [hnone] at h
-            · obtain ⟨s3, hn3, i3, e3, hc3, hs3, hcu3, hd3⟩ :=
-                notifyT_quiet rec' (x.owner, x.name) x.value.join new w2 inv2 hquiet
+            · have hkc : s2.kindAt (x.owner, x.name) = some .comp := by
+                obtain ⟨xc2, hxc2, ho2, hn2, _⟩ := (se1.trans se2).defined hx
+                have := w2.slotKind c xc2 hxc2
+                rwa [ho2, hn2] at this
+              obtain ⟨s3, hn3, i3, e3, hc3, hs3, hcu3, hd3⟩ :=
+                notifyT_quiet rec' (x.owner, x.name) x.value.join new w2 inv2 hkc hquiet
               rw [hrec', hn3] at h
               simp only at h
               injection h with h; injection h with h1 h2; subst h1 h2
@@ -2030,7 +2120,7 @@ theorem Dirtied.dirty {s s' : St} (a : Dirtied s s') {c : Nat} {x : Comp} (hx : 
   · exact ⟨_, h, rfl⟩
 
 theorem Inv.mono_P {S P P' : Nat → Prop} {s : St} (inv : Inv S P s) (h : ∀ c, P c → P' c) : Inv S P' s := by
-  refine ⟨inv.stackDirty, inv.curStack, inv.evald, inv.parents, inv.subsOf, ?_⟩
+  refine ⟨inv.stackDirty, inv.curStack, inv.evald, inv.parents, inv.subsOf, ?_, inv.userOK⟩
   intro c x hx hd p v hp
   have := inv.current c x hx hd p v hp
   cases p with
@@ -2043,7 +2133,7 @@ theorem Inv.mono_P {S P P' : Nat → Prop} {s : St} (inv : Inv S P s) (h : ∀ c
 theorem Inv.drop_P {P : Nat → Prop} {s : St} {c0 : Nat} (inv : Inv NoS (fun q => P q ∨ q = c0) s)
     (hall : ∀ q y k, s.comps q = some y → y.dirty = false → s.keyOf (.comp c0) = some k →
       Sub.dirty q ∉ (s.regs k.1).subs k.2 .change) : Inv NoS P s := by
-  refine ⟨inv.stackDirty, inv.curStack, inv.evald, inv.parents, inv.subsOf, ?_⟩
+  refine ⟨inv.stackDirty, inv.curStack, inv.evald, inv.parents, inv.subsOf, ?_, inv.userOK⟩
   intro c x hx hd p v hp
   have := inv.current c x hx hd p v hp
   cases p with
@@ -2059,45 +2149,70 @@ theorem Inv.drop_P {P : Nat → Prop} {s : St} {c0 : Nat} (inv : Inv NoS (fun q 
       obtain ⟨_, _, k, hk, _, hm⟩ := inv.parents c x hx (.comp c') v hp
       exact hall c x k hx hd hk hm
 
+/-- the same state with other values in the Observables -/
+def St.withStore (s : St) (σ : Key → V) : St := { s with store := σ }
+
+@[simp] theorem withStore_regs (s : St) (σ) : (s.withStore σ).regs = s.regs := rfl
+@[simp] theorem withStore_comps (s : St) (σ) : (s.withStore σ).comps = s.comps := rfl
+@[simp] theorem withStore_dead (s : St) (σ) : (s.withStore σ).dead = s.dead := rfl
+@[simp] theorem withStore_cur (s : St) (σ) : (s.withStore σ).cur = s.cur := rfl
+@[simp] theorem withStore_progs (s : St) (σ) : (s.withStore σ).progs = s.progs := rfl
+@[simp] theorem withStore_store (s : St) (σ) : (s.withStore σ).store = σ := rfl
+@[simp] theorem withStore_alive (s : St) (σ) : (s.withStore σ).alive = s.alive := rfl
+theorem setComp_withStore (s : St) (σ) (c : Nat) (x : Comp) :
+    (s.withStore σ).setComp c x = (s.setComp c x).withStore σ := rfl
+theorem withStore_self (s : St) : s.withStore s.store = s := rfl
+
+/-- the dirty cascade does not look at the Observables' values: it is stated for a run in which they are `σ` (G7
+    repaired: `Observable.__set__` has stored the new value already), while the invariant is that of the state with the
+    values the Computeds were evaluated with -/
 structure CascadeIH (rec : Rec) : Prop where
-  notify : ∀ (k : Key) (o n : V) (s s' : St) (r : R) (P : Nat → Prop), Stat s → Inv NoS P s →
-    rec (.notify k o n) s = some (s', r) →
+  notify : ∀ (k : Key) (o n : V) (s t : St) (r : R) (P : Nat → Prop) (σ : Key → V), Stat s → Inv NoS P s →
+    s.kindAt k = some .comp → rec (.notify k o n) (s.withStore σ) = some (t, r) →
+    ∃ s', t = s'.withStore σ ∧
     r = .ok none ∧ Inv NoS P s' ∧ StaticEq s s' ∧ s'.store = s.store ∧ s'.cur = s.cur ∧ s'.dead = s.dead ∧
     SameSubs s s' ∧ Dirtied s s' ∧
     (∀ c, Sub.dirty c ∈ (s.regs k.1).subs k.2 .change → ∃ y, s'.comps c = some y ∧ y.dirty = true)
 
-theorem notifyLoop_cascade {rec : Rec} (ih : CascadeIH rec) (k : Key) (old new : V) :
-    ∀ (xs : List Sub) (s s' : St) (r : Except Err Unit) (P : Nat → Prop), Stat s → Inv NoS P s →
+/-- the first pass of `_mesa_notify`: the dependents (`_set_dirty`), each with the cascade it starts -/
+theorem notifyLoop_cascade {rec : Rec} (ih : CascadeIH rec) (k : Key) (old new : V) (σ : Key → V) :
+    ∀ (xs : List Sub) (s t : St) (r : Except Err Unit) (P : Nat → Prop), Stat s → Inv NoS P s →
+    (∀ x ∈ xs, x.isDep = true) →
     (∀ c, Sub.dirty c ∈ xs → ∃ x, s.comps c = some x) →
     (∀ c, Sub.dirty c ∈ xs → Sub.dirty c ∈ (s.regs k.1).subs k.2 .change) →
-    notifyLoop rec k old new xs s = some (s', r) →
+    notifyLoop rec k old new xs (s.withStore σ) = some (t, r) →
+    ∃ s', t = s'.withStore σ ∧
     r = .ok () ∧ Inv NoS P s' ∧ StaticEq s s' ∧ s'.store = s.store ∧ s'.cur = s.cur ∧
     s'.dead = s.dead ∧ SameSubs s s' ∧ Dirtied s s' ∧
     (∀ c, Sub.dirty c ∈ xs → ∃ y, s'.comps c = some y ∧ y.dirty = true) := by
   intro xs
   induction xs with
   | nil =>
-    intro s s' r P _ inv _ _ h
+    intro s t r P _ inv _ _ _ h
     simp only [notifyLoop] at h
     injection h with h; injection h with h1 h2; subst h1 h2
-    exact ⟨rfl, inv, StaticEq.refl s, rfl, rfl, rfl, SameSubs.refl s, Dirtied.refl s, fun c hc => by simp at hc⟩
+    exact ⟨s, rfl, rfl, inv, StaticEq.refl s, rfl, rfl, rfl, SameSubs.refl s, Dirtied.refl s, fun c hc => by simp at hc⟩
   | cons x xs ihx =>
-    intro s s' r P w inv hdef hsub h
+    intro s t r P w inv hdep hdef hsub h
     unfold notifyLoop at h
     cases x with
+    | user hh => have := hdep (Sub.user hh) (by simp); simp [Sub.isDep] at this
     | dirty c =>
-      have hg : (!s.alive (Sub.dirty c) || !(((s.regs k.1).subs k.2 .change).contains (Sub.dirty c))) = false := by
+      have hg : (!(s.withStore σ).alive (Sub.dirty c) ||
+          !((((s.withStore σ).regs k.1).subs k.2 .change).contains (Sub.dirty c))) = false := by
         have := hsub c (by simp)
         simp [this]
       rw [hg] at h
       simp only [Bool.false_eq_true, if_false] at h
       obtain ⟨cx, hcx⟩ := hdef c (by simp)
-      simp only [hcx] at h
+      have hcx' : (s.withStore σ).comps c = some cx := hcx
+      simp only [hcx'] at h
+      have hdep' : ∀ x ∈ xs, x.isDep = true := fun x hx => hdep x (by simp [hx])
       by_cases hcd : cx.dirty = true
       · rw [if_pos hcd] at h
-        obtain ⟨h1, h2, h3, h4, h5, h6, h7, h8, h9⟩ := ihx s s' r P w inv
+        obtain ⟨s', e0, h1, h2, h3, h4, h5, h6, h7, h8, h9⟩ := ihx s t r P w inv hdep'
           (fun c' hc' => hdef c' (by simp [hc'])) (fun c' hc' => hsub c' (by simp [hc'])) h
-        refine ⟨h1, h2, h3, h4, h5, h6, h7, h8, ?_⟩
+        refine ⟨s', e0, h1, h2, h3, h4, h5, h6, h7, h8, ?_⟩
         intro c' hc'
         rcases List.mem_cons.mp hc' with hc' | hc'
         · injection hc' with hc'; subst hc'; exact h8.dirty hcx hcd
@@ -2114,13 +2229,18 @@ theorem notifyLoop_cascade {rec : Rec} (ih : CascadeIH rec) (k : Key) (old new :
           refine ⟨fun hf => ?_, fun hf => e2 hf⟩
           have := (e1 hf).1; simp [hcd'] at this
         have sed : StaticEq s (s.setComp c { cx with dirty := true }) := StaticEq.of_setComp hcx rfl rfl rfl
-        cases hn : rec (.notify (cx.owner, cx.name) cx.value.join none) (s.setComp c { cx with dirty := true }) with
+        rw [setComp_withStore] at h
+        cases hn : rec (.notify (cx.owner, cx.name) cx.value.join none)
+            ((s.setComp c { cx with dirty := true }).withStore σ) with
         | none => simp [hn] at h
         | some res =>
-          obtain ⟨s1, r1⟩ := res
-          obtain ⟨g1, g2, g3, g4, g5, g6, g7, g8, g9⟩ := ih.notify _ _ _ _ s1 r1 _ (w.of_staticEq sed) invd hn
+          obtain ⟨t1, r1⟩ := res
+          have hkc : (s.setComp c { cx with dirty := true }).kindAt (cx.owner, cx.name) = some .comp := by
+            rw [sed.kindAt]; exact w.slotKind c cx hcx
+          obtain ⟨s1, et1, g1, g2, g3, g4, g5, g6, g7, g8, g9⟩ :=
+            ih.notify _ _ _ _ t1 r1 _ σ (w.of_staticEq sed) invd hkc hn
           rw [hn] at h
-          subst g1
+          subst g1 et1
           simp only at h
           have sed1 : StaticEq s s1 := sed.trans g3
           -- all subscribers of `c` are dirty now: `c` is no longer pending
@@ -2144,13 +2264,13 @@ theorem notifyLoop_cascade {rec : Rec} (ih : CascadeIH rec) (k : Key) (old new :
             · rw [setComp_ne _ _ hq]
               exact ⟨id, fun y hy => Or.inl hy⟩
           have hss : SameSubs s s1 := g7
-          obtain ⟨h1, h2, h3, h4, h5, h6, h7, h8, h9⟩ := ihx s1 s' r P (w.of_staticEq sed1) inv1
+          obtain ⟨s', e0, h1, h2, h3, h4, h5, h6, h7, h8, h9⟩ := ihx s1 t r P (w.of_staticEq sed1) inv1 hdep'
             (fun c' hc' => by
               obtain ⟨z, hz⟩ := hdef c' (by simp [hc'])
               obtain ⟨z', hz', _⟩ := sed1.defined hz
               exact ⟨z', hz'⟩)
             (fun c' hc' => (hss.2 _ _ _ c').mpr (hsub c' (by simp [hc']))) h
-          refine ⟨h1, h2, sed1.trans h3, h4.trans g4, h5.trans g5, h6.trans g6,
+          refine ⟨s', e0, h1, h2, sed1.trans h3, h4.trans g4, h5.trans g5, h6.trans g6,
             hss.trans h7, hdirt.trans h8, ?_⟩
           intro c' hc'
           rcases List.mem_cons.mp hc' with hc' | hc'
@@ -2158,113 +2278,249 @@ theorem notifyLoop_cascade {rec : Rec} (ih : CascadeIH rec) (k : Key) (old new :
             obtain ⟨z, hz, hzd⟩ := g8.dirty (setComp_same s c' { cx with dirty := true }) rfl
             exact h8.dirty hz hzd
           · exact h9 c' hc'
-    | user hh =>
-      by_cases hg : (!s.alive (Sub.user hh) || !(((s.regs k.1).subs k.2 .change).contains (Sub.user hh))) = true
-      · rw [if_pos hg] at h
-        obtain ⟨h1, h2, h3, h4, h5, h6, h7, h8, h9⟩ := ihx s s' r P w inv
-          (fun c' hc' => hdef c' (by simp [hc'])) (fun c' hc' => hsub c' (by simp [hc'])) h
-        exact ⟨h1, h2, h3, h4, h5, h6, h7, h8, fun c' hc' => h9 c' (by simpa using hc')⟩
-      · rw [if_neg hg] at h
-        simp only [w.progs hh, readAll] at h
-        have invl : Inv NoS P { s with log := s.log ++ [⟨hh, k.1, k.2, old, new⟩] } :=
-          inv.congr rfl rfl rfl inv.curStack
-        have sel : StaticEq s { s with log := s.log ++ [⟨hh, k.1, k.2, old, new⟩] } :=
-          ⟨rfl, fun _ => rfl, (StaticEq.refl s).comps⟩
-        obtain ⟨h1, h2, h3, h4, h5, h6, h7, h8, h9⟩ := ihx _ s' r P (w.of_staticEq sel) invl
-          (fun c' hc' => hdef c' (by simp [hc'])) (fun c' hc' => hsub c' (by simp [hc'])) h
-        exact ⟨h1, h2, sel.trans h3, h4, h5, h6, h7, h8, fun c' hc' => h9 c' (by simpa using hc')⟩
 
+/-- pruning the dead references of one list changes no `_set_dirty` entry -/
+theorem SameSubs.prune (s : St) (k : Key) :
+    SameSubs s (s.setReg k.1 ((s.regs k.1).setSubs k.2 .change (((s.regs k.1).subs k.2 .change).filter s.alive))) := by
+  refine ⟨fun o => ?_, fun o n t q => ?_⟩
+  · by_cases ho : o = k.1
+    · subst ho; simp [Reg.names]
+    · simp [St.setReg, ho]
+  · by_cases ho : o = k.1
+    · subst ho
+      simp only [setReg_same, Reg.setSubs]
+      by_cases hnt : n = k.2 ∧ t = .change
+      · obtain ⟨rfl, rfl⟩ := hnt
+        simp [List.mem_filter]
+      · simp [hnt]
+    · simp [St.setReg, ho]
 
-theorem notifyT_cascade {rec : Rec} (ih : CascadeIH rec) (k : Key) (old new : V) {s s' : St} {r : R}
-    {P : Nat → Prop} (w : Stat s) (inv : Inv NoS P s) (h : notifyT rec k old new s = some (s', r)) :
+theorem StaticEq.prune (s : St) (k : Key) (l : List Sub) :
+    StaticEq s (s.setReg k.1 ((s.regs k.1).setSubs k.2 .change l)) := by
+  refine ⟨rfl, fun o => ?_, fun c => (StaticEq.refl s).comps c⟩
+  by_cases ho : o = k.1
+  · subst ho; simp
+  · simp [St.setReg, ho]
+
+/-- the `change` signal of a Computable that was just marked dirty -/
+theorem notifyT_cascade {rec : Rec} (ih : CascadeIH rec) (k : Key) (old new : V) (σ : Key → V) {s t : St} {r : R}
+    {P : Nat → Prop} (w : Stat s) (inv : Inv NoS P s) (hk : s.kindAt k = some .comp)
+    (h : notifyT rec k old new (s.withStore σ) = some (t, r)) :
+    ∃ s', t = s'.withStore σ ∧
     r = .ok none ∧ Inv NoS P s' ∧ StaticEq s s' ∧ s'.store = s.store ∧ s'.cur = s.cur ∧ s'.dead = s.dead ∧
     SameSubs s s' ∧ Dirtied s s' ∧
     (∀ c, Sub.dirty c ∈ (s.regs k.1).subs k.2 .change → ∃ y, s'.comps c = some y ∧ y.dirty = true) := by
   unfold notifyT at h
-  cases hl : notifyLoop rec k old new ((s.regs k.1).subs k.2 .change) s with
+  simp only [withStore_regs] at h
+  cases hl : notifyLoop rec k old new (((s.regs k.1).subs k.2 .change).filter Sub.isDep) (s.withStore σ) with
   | none => simp [hl] at h
   | some res =>
-    obtain ⟨s1, r1⟩ := res
-    obtain ⟨h1, h2, h3, h4, h5, h6, h7, h8, h9⟩ := notifyLoop_cascade ih k old new _ s s1 r1 P w inv
+    obtain ⟨t1, r1⟩ := res
+    obtain ⟨s1, e1, h1, h2, h3, h4, h5, h6, h7, h8, h9⟩ := notifyLoop_cascade ih k old new σ _ s t1 r1 P w inv
+      (fun x hx => (List.mem_filter.mp hx).2)
       (fun c hc => by
-        obtain ⟨_, x, hx, _⟩ := inv.subsOf k.1 k.2 .change c hc
-        exact ⟨x, hx⟩) (fun c hc => hc) hl
+        obtain ⟨_, x, hx, _⟩ := inv.subsOf k.1 k.2 .change c ((mem_filter_isDep_dirty c _).mp hc)
+        exact ⟨x, hx⟩) (fun c hc => (mem_filter_isDep_dirty c _).mp hc) hl
     rw [hl] at h
-    subst h1
+    subst h1 e1
+    simp only at h
+    -- the second pass: the user handlers of a Computable are passive
+    have hpass : ∀ hh, Sub.user hh ∈ (s.regs k.1).subs k.2 .change → s1.progs hh = [] := by
+      intro hh hm
+      rw [h3.progs]
+      rcases inv.userOK k.1 k.2 .change hh hm with hp | hp
+      · exact hp
+      · rw [hk] at hp; cases hp
+    obtain ⟨lg, hq⟩ := notifyLoop_quiet rec k old new (((s.regs k.1).subs k.2 .change).filter fun x => !x.isDep)
+      (s1.withStore σ) (fun hh hm => hpass hh ((mem_filter_notDep_user hh _).mp hm))
+      (fun c hc => absurd hc (mem_filter_notDep_dirty c _))
+    rw [hq] at h
     simp only at h
     injection h with h; injection h with g1 g2; subst g1 g2
-    have hss : SameSubs s1 (s1.setReg k.1 ((s1.regs k.1).setSubs k.2 .change
-        (((s1.regs k.1).subs k.2 .change).filter s1.alive))) := by
-      refine ⟨fun o => ?_, fun o n t q => ?_⟩
-      · by_cases ho : o = k.1
-        · subst ho; simp [Reg.names]
-        · simp [St.setReg, ho]
-      · by_cases ho : o = k.1
-        · subst ho
-          simp only [setReg_same, Reg.setSubs]
-          by_cases hnt : n = k.2 ∧ t = .change
-          · obtain ⟨rfl, rfl⟩ := hnt
-            simp [List.mem_filter]
-          · simp [hnt]
-        · simp [St.setReg, ho]
-    refine ⟨rfl, h2.congr_regs rfl rfl rfl hss.1 hss.2, ?_, h4, h5, h6, h7.trans hss, ?_, ?_⟩
-    · refine h3.trans ⟨rfl, fun o => ?_, fun c => (StaticEq.refl s1).comps c⟩
-      by_cases ho : o = k.1
-      · subst ho; simp
-      · simp [St.setReg, ho]
+    have invl : Inv NoS P { s1 with log := s1.log ++ lg } := h2.congr rfl rfl rfl rfl h2.curStack
+    have sel : StaticEq s1 { s1 with log := s1.log ++ lg } := ⟨rfl, fun _ => rfl, (StaticEq.refl s1).comps⟩
+    refine ⟨({ s1 with log := s1.log ++ lg } : St).setReg k.1 ((s1.regs k.1).setSubs k.2 .change
+        (((s1.regs k.1).subs k.2 .change).filter s1.alive)), rfl, rfl, ?_, ?_, h4, h5, h6, ?_, ?_, ?_⟩
+    · have hs := SameSubs.prune ({ s1 with log := s1.log ++ lg } : St) k
+      exact invl.congr_regs rfl rfl rfl hs.1 hs.2 (invl.userOK.prune k)
+    · exact (h3.trans sel).trans (StaticEq.prune _ k _)
+    · exact h7.trans (SameSubs.prune ({ s1 with log := s1.log ++ lg } : St) k)
     · exact h8
-    · exact h9
+    · intro c hc
+      exact h9 c ((mem_filter_isDep_dirty c _).mpr hc)
 
 theorem cascade_exec (f : Nat) : CascadeIH (exec f) := by
   induction f with
-  | zero => exact ⟨fun k o n s s' r P _ _ h => by simp [exec] at h⟩
-  | succ f ih => exact ⟨fun k o n s s' r P w inv h => notifyT_cascade ih k o n w inv h⟩
+  | zero => exact ⟨fun k o n s t r P σ _ _ _ h => by simp [exec] at h⟩
+  | succ f ih => exact ⟨fun k o n s t r P σ w inv hk h => notifyT_cascade ih k o n σ w inv hk h⟩
 
-/-- a top-level assignment `owner.name = v` -/
+/-- what a user handler does after recording: it reads Computables (at top level, everything propagated) -/
+theorem readAll_spec {rec : Rec} (ih : IH rec) : ∀ (cs : List Nat) (s s' : St) (r : R), Stat s → Inv NoS NoP s →
+    readAll rec cs s = some (s', r) →
+    Inv NoS NoP s' ∧ StaticEq s s' ∧ s'.store = s.store ∧ s'.cur = s.cur ∧ s'.dead = s.dead := by
+  intro cs
+  induction cs with
+  | nil =>
+    intro s s' r _ inv h
+    simp only [readAll] at h
+    injection h with h; injection h with h1 _; subst h1
+    exact ⟨inv, StaticEq.refl s, rfl, rfl, rfl⟩
+  | cons c cs ihc =>
+    intro s s' r w inv h
+    simp only [readAll] at h
+    cases hg : rec (.readC c) s with
+    | none => simp [hg] at h
+    | some res =>
+      obtain ⟨s1, r1⟩ := res
+      obtain ⟨hok, herr⟩ := ih.get c s s1 r1 NoS w inv (by simp [NoS]) (fun q hq => by simp [NoS] at hq) hg
+      rw [hg] at h
+      cases r1 with
+      | err e =>
+        simp only at h
+        injection h with h; injection h with h1 _; subst h1
+        have pe := herr e rfl
+        exact ⟨pe.inv, pe.stat, pe.store, pe.cur, pe.dead⟩
+      | ok v =>
+        simp only at h
+        have pg := hok v rfl
+        obtain ⟨i1, i2, i3, i4, i5⟩ := ihc s1 s' r (w.of_staticEq pg.stat) pg.inv h
+        exact ⟨i1, pg.stat.trans i2, i3.trans pg.store, i4.trans pg.cur, i5.trans pg.dead⟩
+
+/-- the second pass of `_mesa_notify` at top level: the user handlers, which may read Computables -/
+theorem notifyLoop_users {rec : Rec} (ih : IH rec) (k : Key) (old new : V) :
+    ∀ (xs : List Sub) (s s' : St) (r : Except Err Unit), (∀ x ∈ xs, x.isDep = false) → Stat s → Inv NoS NoP s →
+    notifyLoop rec k old new xs s = some (s', r) →
+    Inv NoS NoP s' ∧ StaticEq s s' ∧ s'.store = s.store ∧ s'.cur = s.cur ∧ s'.dead = s.dead := by
+  intro xs
+  induction xs with
+  | nil =>
+    intro s s' r _ _ inv h
+    simp only [notifyLoop] at h
+    injection h with h; injection h with h1 _; subst h1
+    exact ⟨inv, StaticEq.refl s, rfl, rfl, rfl⟩
+  | cons x xs ihx =>
+    intro s s' r hdep w inv h
+    have hdep' : ∀ x ∈ xs, x.isDep = false := fun x hx => hdep x (by simp [hx])
+    unfold notifyLoop at h
+    split at h
+    · exact ihx s s' r hdep' w inv h
+    · cases x with
+      | dirty c => have := hdep (Sub.dirty c) (by simp); simp [Sub.isDep] at this
+      | user hh =>
+        simp only at h
+        have invl : Inv NoS NoP { s with log := s.log ++ [⟨hh, k.1, k.2, old, new⟩] } :=
+          inv.congr rfl rfl rfl rfl inv.curStack
+        have sel : StaticEq s { s with log := s.log ++ [⟨hh, k.1, k.2, old, new⟩] } :=
+          ⟨rfl, fun _ => rfl, (StaticEq.refl s).comps⟩
+        cases hg : readAll rec (s.progs hh) { s with log := s.log ++ [⟨hh, k.1, k.2, old, new⟩] } with
+        | none => simp [hg] at h
+        | some res =>
+          obtain ⟨s1, r1⟩ := res
+          obtain ⟨g1, g2, g3, g4, g5⟩ := readAll_spec ih _ _ s1 r1 (w.of_staticEq sel) invl hg
+          rw [hg] at h
+          cases r1 with
+          | err e =>
+            simp only at h
+            injection h with h; injection h with h1 _; subst h1
+            exact ⟨g1, sel.trans g2, g3, g4, g5⟩
+          | ok u =>
+            simp only at h
+            obtain ⟨i1, i2, i3, i4, i5⟩ := ihx s1 s' r hdep' (w.of_staticEq (sel.trans g2)) g1 h
+            exact ⟨i1, (sel.trans g2).trans i2, i3.trans g3, i4.trans g4, i5.trans g5⟩
+
+/-- a top-level assignment `owner.name = v` (G7 repaired): the value is stored, every dependent is marked dirty, then
+    the user handlers run — they may read Computables —; whether it returns or a handler raises, the invariant holds
+    afterwards and the Observable holds `v` -/
 theorem assign_spec (f : Nat) {k : Key} {v : V} {s s' : St} {r : R} (w : Stat s) (inv : Inv NoS NoP s)
     (hcur : s.cur = none) (h : exec f (.assign k v) s = some (s', r)) :
-    r = .ok none ∧ Inv NoS NoP s' ∧ StaticEq s s' ∧ s'.cur = none ∧
-    s'.store = (fun k' => if k' = k then v else s.store k') ∧
-    (∀ c x, s.comps c = some x → ∃ x', s'.comps c = some x' ∧ x'.evals = x.evals) := by
+    Inv NoS NoP s' ∧ StaticEq s s' ∧ s'.cur = none ∧
+    s'.store = (fun k' => if k' = k then v else s.store k') := by
   cases f with
   | zero => simp [exec] at h
   | succ f =>
-    simp only [exec, stepF, assignT, hcur, Option.isSome_none, Bool.false_eq_true, false_and, if_false] at h
-    cases hn : exec f (.notify k (s.store k) v) s with
+    simp only [exec, stepF, assignT] at h
+    rw [if_neg (by simp [hcur])] at h
+    generalize hσ : (fun k' => if k' = k then v else s.store k') = σ at h ⊢
+    have hs0 : ({ s with store := σ } : St) = s.withStore σ := rfl
+    rw [hs0] at h
+    cases hn : exec f (.notify k (s.store k) v) (s.withStore σ) with
     | none => simp [hn] at h
     | some res =>
-      obtain ⟨s1, r1⟩ := res
-      obtain ⟨g1, g2, g3, g4, g5, g6, g7, g8, g9⟩ := (cascade_exec f).notify _ _ _ s s1 r1 NoP w inv hn
+      obtain ⟨t, rt⟩ := res
+      have key : Inv NoS NoP t ∧ StaticEq s t ∧ t.cur = none ∧ t.store = σ := by
+        cases f with
+        | zero => simp [exec] at hn
+        | succ f =>
+          simp only [exec, stepF] at hn
+          unfold notifyT at hn
+          simp only [withStore_regs] at hn
+          cases hl : notifyLoop (exec f) k (s.store k) v (((s.regs k.1).subs k.2 .change).filter Sub.isDep)
+              (s.withStore σ) with
+          | none => simp [hl] at hn
+          | some res1 =>
+            obtain ⟨t1, r1⟩ := res1
+            obtain ⟨s1, e1, h1, h2, h3, h4, h5, h6, h7, h8, h9⟩ :=
+              notifyLoop_cascade (cascade_exec f) k (s.store k) v σ _ s t1 r1 NoP w inv
+              (fun x hx => (List.mem_filter.mp hx).2)
+              (fun c hc => by
+                obtain ⟨_, x, hx, _⟩ := inv.subsOf k.1 k.2 .change c ((mem_filter_isDep_dirty c _).mp hc)
+                exact ⟨x, hx⟩) (fun c hc => (mem_filter_isDep_dirty c _).mp hc) hl
+            rw [hl] at hn
+            subst h1 e1
+            simp only at hn
+            -- with every dependent of `k` dirty, the new value is consistent with all clean Computeds
+            have inv1 : Inv NoS NoP (s1.withStore σ) := by
+              refine ⟨h2.stackDirty, fun p hp => h2.curStack p hp, h2.evald, ?_, h2.subsOf, ?_, h2.userOK⟩
+              · intro c x hx p0 v0 hp0
+                exact h2.parents c x hx p0 v0 hp0
+              · intro c x hx hd p0 v0 hp0
+                have hc0 := h2.current c x hx hd p0 v0 hp0
+                cases p0 with
+                | comp c' => exact hc0
+                | obs k' =>
+                  show σ k' = v0
+                  rw [← hσ]
+                  by_cases hk : k' = k
+                  · subst hk
+                    exfalso
+                    obtain ⟨_, _, kk, hkk, _, hm⟩ := h2.parents c x hx (.obs k') v0 hp0
+                    simp only [St.keyOf] at hkk; cases hkk
+                    obtain ⟨z, hz, hzd⟩ := h9 c ((mem_filter_isDep_dirty c _).mpr ((h7.2 _ _ _ c).mp hm))
+                    have hx' : s1.comps c = some x := hx
+                    rw [hx'] at hz; cases hz; simp [hd] at hzd
+                  · simp only [hk, if_false]
+                    have : s1.store k' = v0 := hc0
+                    rw [h4] at this; exact this
+            have se1 : StaticEq s (s1.withStore σ) := ⟨h3.progs, h3.decls, h3.comps⟩
+            cases hl2 : notifyLoop (exec f) k (s.store k) v
+                (((s.regs k.1).subs k.2 .change).filter fun x => !x.isDep) (s1.withStore σ) with
+            | none => simp [hl2] at hn
+            | some res2 =>
+              obtain ⟨t2, r2⟩ := res2
+              obtain ⟨g1, g2, g3, g4, g5⟩ := notifyLoop_users (exec_IH f) k (s.store k) v _ _ t2 r2
+                (fun x hx => by simpa using (List.mem_filter.mp hx).2) (w.of_staticEq se1) inv1 hl2
+              rw [hl2] at hn
+              cases r2 with
+              | error e =>
+                simp only at hn
+                injection hn with hn; injection hn with hn1 _; subst hn1
+                exact ⟨g1, se1.trans g2, g4.trans (h5.trans hcur), g3⟩
+              | ok u =>
+                simp only at hn
+                injection hn with hn; injection hn with hn1 _; subst hn1
+                have hs := SameSubs.prune t2 k
+                refine ⟨g1.congr_regs rfl rfl rfl hs.1 hs.2 (g1.userOK.prune k),
+                  (se1.trans g2).trans (StaticEq.prune _ k _), g4.trans (h5.trans hcur), g3⟩
       rw [hn] at h
-      subst g1
-      simp only at h
-      injection h with h; injection h with h1 h2; subst h1 h2
-      refine ⟨rfl, ?_, ⟨g3.progs, g3.decls, g3.comps⟩, g5.trans hcur, by simp [g4], ?_⟩
-      · -- only `current` looks at the store
-        have hsl : ∀ k', St.isSlot { s1 with store := fun k' => if k' = k then v else s1.store k' } k' ↔
-            s1.isSlot k' := fun _ => Iff.rfl
-        refine ⟨g2.stackDirty, fun p hp => g2.curStack p hp, g2.evald, ?_, g2.subsOf, ?_⟩
-        · intro c x hx p0 v0 hp0
-          exact g2.parents c x hx p0 v0 hp0
-        · intro c x hx hd p0 v0 hp0
-          have hc0 := g2.current c x hx hd p0 v0 hp0
-          cases p0 with
-          | comp c' => exact hc0
-          | obs k' =>
-            show (if k' = k then v else s1.store k') = v0
-            by_cases hk : k' = k
-            · subst hk
-              exfalso
-              obtain ⟨_, _, kk, hkk, _, hm⟩ := g2.parents c x hx (.obs k') v0 hp0
-              simp only [St.keyOf] at hkk; cases hkk
-              obtain ⟨z, hz, hzd⟩ := g9 c ((g7.2 _ _ _ c).mp hm)
-              have hx' : s1.comps c = some x := hx
-              rw [hx'] at hz; cases hz; simp [hd] at hzd
-            · simp only [hk, if_false]; exact hc0
-      · intro c x hx
-        rcases (g8 c).2 x hx with h' | ⟨_, h'⟩
-        · exact ⟨x, h', rfl⟩
-        · exact ⟨_, h', rfl⟩
+      cases rt with
+      | err e =>
+        simp only at h
+        injection h with h; injection h with h1 _; subst h1
+        exact key
+      | ok u =>
+        simp only at h
+        injection h with h; injection h with h1 _; subst h1
+        exact key
 
 
 /-! ### the top-level operations -/
@@ -2298,7 +2554,8 @@ theorem define_pre {s : St} {c o n : Nat} {t : Tree} (w : Stat s) (inv : Inv NoS
     by_cases hq : q = c
     · subst hq; rw [setComp_same] at hy; cases hy; exact Or.inr rfl
     · rw [setComp_ne _ _ hq] at hy; exact Or.inl ⟨q, y, hy, rfl⟩
-  refine ⟨⟨w.progs, w.regs, ?_, ?_, ?_, ?_, ?_⟩, ⟨fun q hq => by simp [NoS] at hq, fun p hp => inv.curStack p hp, ?_, ?_, ?_, ?_⟩⟩
+  refine ⟨⟨w.regs, ?_, ?_, ?_, ?_, ?_⟩,
+    ⟨fun q hq => by simp [NoS] at hq, fun p hp => inv.curStack p hp, ?_, ?_, ?_, ?_, inv.userOK⟩⟩
   · intro q y hy
     by_cases hq : q = c
     · subst hq; rw [setComp_same] at hy; cases hy; exact ok.pure
@@ -2401,7 +2658,7 @@ inductive OpOK (s : St) : Op → Prop
   | define (c o n : Nat) (t : Tree) (h : DefineOK s c o n t) : OpOK s (.define c o n t)
   | assign (k : Key) (v : V) : OpOK s (.assign k v)
   | read (c : Nat) : OpOK s (.read c)
-  | observe (k : Key) (h : Nat) : OpOK s (.observe k h)
+  | observe (k : Key) (h : Nat) (hp : s.progs h = [] ∨ s.kindAt k = some .obs) : OpOK s (.observe k h)
   | unobserve (k : Key) (h : Nat) : OpOK s (.unobserve k h)
   | drop (h : Nat) : OpOK s (.drop h)
 
@@ -2450,17 +2707,17 @@ theorem step_good (fuel : Nat) {s s' : St} {op : Op} {r : R} (g : Good s) (ok : 
     obtain ⟨w0, i0⟩ := define_pre g.stat g.inv hd
     exact (read_spec_all fuel ⟨w0, i0, g.cur⟩ h).1
   | assign k x =>
-    obtain ⟨_, i, se, hc, _, _⟩ := assign_spec fuel g.stat g.inv g.cur h
+    obtain ⟨i, se, hc, _⟩ := assign_spec fuel g.stat g.inv g.cur h
     exact ⟨g.stat.of_staticEq se, i, hc⟩
   | read c => exact (read_spec_all fuel g h).1
-  | observe k hh =>
+  | observe k hh hprog =>
     simp only [step] at h
     rcases Reg.observe_spec (g.stat.regs k.1).wf (.one k.2) (.one .change) (Sub.user hh) with
       ⟨_, r', ho, hdecl, hs⟩ | ⟨_, ho⟩
     · rw [ho] at h
       injection h with h; injection h with h1 _; subst h1
       have se : StaticEq s (s.setReg k.1 r') := StaticEq.of_setReg hdecl
-      refine ⟨g.stat.of_staticEq se, g.inv.congr_regs rfl rfl rfl ?_ ?_, g.cur⟩
+      refine ⟨g.stat.of_staticEq se, g.inv.congr_regs rfl rfl rfl ?_ ?_ ?_, g.cur⟩
       · intro o
         by_cases ho' : o = k.1
         · subst ho'; rw [setReg_same]; exact Reg.names_of_decls hdecl
@@ -2472,6 +2729,23 @@ theorem step_good (fuel : Nat) {s s' : St} {op : Op} {r : R} (g : Good s) (ok : 
           · exact mem_dirty_append_user q hh _
           · exact Iff.rfl
         · rw [setReg_ne _ _ ho']
+      · intro o n t h' hm
+        rw [se.kindAt]
+        by_cases ho' : o = k.1
+        · subst ho'
+          rw [setReg_same, hs] at hm
+          split at hm
+          · rename_i hc
+            rcases List.mem_append.mp hm with hm | hm
+            · exact g.inv.userOK _ n t h' hm
+            · simp only [List.mem_singleton, Sub.user.injEq] at hm
+              subst hm
+              simp only [Sel.matches, decide_eq_true_eq] at hc
+              have : (k.1, n) = k := by rw [← hc.1]
+              rw [this]; exact hprog
+          · exact g.inv.userOK _ n t h' hm
+        · rw [setReg_ne _ _ ho'] at hm
+          exact g.inv.userOK o n t h' hm
     · rw [ho] at h; injection h with h; injection h with h1 _; subst h1; exact g
   | unobserve k hh =>
     simp only [step] at h
@@ -2481,7 +2755,7 @@ theorem step_good (fuel : Nat) {s s' : St} {op : Op} {r : R} (g : Good s) (ok : 
     · rw [ho] at h
       injection h with h; injection h with h1 _; subst h1
       have se : StaticEq s (s.setReg k.1 r') := StaticEq.of_setReg hdecl
-      refine ⟨g.stat.of_staticEq se, g.inv.congr_regs rfl rfl rfl ?_ ?_, g.cur⟩
+      refine ⟨g.stat.of_staticEq se, g.inv.congr_regs rfl rfl rfl ?_ ?_ ?_, g.cur⟩
       · intro o
         by_cases ho' : o = k.1
         · subst ho'; rw [setReg_same]; exact Reg.names_of_decls hdecl
@@ -2493,19 +2767,30 @@ theorem step_good (fuel : Nat) {s s' : St} {op : Op} {r : R} (g : Good s) (ok : 
           · simp [Reg.keep]
           · exact Iff.rfl
         · rw [setReg_ne _ _ ho']
+      · intro o n t h' hm
+        rw [se.kindAt]
+        by_cases ho' : o = k.1
+        · subst ho'
+          rw [setReg_same, hs] at hm
+          split at hm
+          · exact g.inv.userOK _ n t h' (List.mem_filter.mp hm).1
+          · exact g.inv.userOK _ n t h' hm
+        · rw [setReg_ne _ _ ho'] at hm
+          exact g.inv.userOK o n t h' hm
   | drop hh =>
     simp only [step] at h
     injection h with h; injection h with h1 _; subst h1
-    exact ⟨⟨g.stat.progs, g.stat.regs, g.stat.pure, g.stat.ranked, g.stat.obsKind, g.stat.slotKind, g.stat.slots⟩,
-      g.inv.congr rfl rfl rfl g.inv.curStack, g.cur⟩
+    exact ⟨⟨g.stat.regs, g.stat.pure, g.stat.ranked, g.stat.obsKind, g.stat.slotKind, g.stat.slots⟩,
+      g.inv.congr rfl rfl rfl rfl g.inv.curStack, g.cur⟩
 
 /-- declarations of the owners: distinct names, every one an Observable or a Computable -/
 def DeclsOK (decls : Nat → List Decl) : Prop :=
   ∀ o, ((decls o).map (·.name)).Nodup ∧ ∀ d ∈ decls o, d.types = [.change]
 
-theorem init_good {decls : Nat → List Decl} (hd : DeclsOK decls) : Good (init decls fun _ => []) := by
-  refine ⟨⟨fun _ => rfl, fun o => ⟨(hd o).1, (hd o).2⟩, ?_, ?_, ?_, ?_, ?_⟩, ⟨?_, ?_, ?_, ?_, ?_, ?_⟩, rfl⟩
+theorem init_good {decls : Nat → List Decl} (hd : DeclsOK decls) (progs : Nat → List Nat) : Good (init decls progs) := by
+  refine ⟨⟨fun o => ⟨(hd o).1, (hd o).2⟩, ?_, ?_, ?_, ?_, ?_⟩, ⟨?_, ?_, ?_, ?_, ?_, ?_, ?_⟩, rfl⟩
   all_goals first
+    | (intro o n t h hm; simp [init] at hm)
     | (intro c x hx; simp [init] at hx)
     | (intro c c' x x' hx; simp [init] at hx)
     | (intro c hc; simp [NoS] at hc)
